@@ -92,6 +92,22 @@ fn attempts(cfg: &Cfg, tier: Tier) -> Vec<Attempt> {
         }
         out.push(a);
     }
+    // witness degree below / above the statement's with commitments that were made with that many blinding factors
+    // (so every opening does reproduce its commitment)
+    for d2 in [cfg.d.wrapping_sub(1), cfg.d + 1, 1] {
+        if d2 == 0 || d2 > 6 || d2 == cfg.d {
+            continue;
+        }
+        let mut a = base.clone();
+        a.name = format!("witness-degree={}(commitments made with {} blinding factors)", d2, d2);
+        for r in a.open_blindings.iter_mut() {
+            r.resize(d2, Scalar::from(9u8));
+        }
+        if d2 < cfg.d {
+            a.commit_blindings = a.open_blindings.clone();
+            out.push(a);
+        }
+    }
     let max = cfg.max_value();
     for &j in &positions(m, tier.thorough()) {
         // value +/- 1 against an unchanged commitment
@@ -121,6 +137,18 @@ fn attempts(cfg: &Cfg, tier: Tier) -> Vec<Attempt> {
             a.commit_values[j] = v;
             a.open_values[j] = v;
             out.push(a);
+        }
+        // out-of-range values whose distance to a promise is in range (matching commitment)
+        if cfg.n < 64 {
+            let two_n = 1u64 << cfg.n;
+            for (v, p) in [(two_n, 1u64), (two_n, two_n), (two_n + 1, 2), (two_n + max.min(7), max.min(7) + 1), (two_n, max)] {
+                let mut a = base.clone();
+                a.name = format!("value[{}]={},promise={}(matching commitment)", j, v, p);
+                a.commit_values[j] = v;
+                a.open_values[j] = v;
+                a.promises[j] = Some(p);
+                out.push(a);
+            }
         }
         // promises around the value
         let vj = base.open_values[j];
@@ -169,6 +197,8 @@ fn attempts(cfg: &Cfg, tier: Tier) -> Vec<Attempt> {
             }
         }
     }
+    let mut seen = std::collections::BTreeSet::new();
+    out.retain(|a| seen.insert(a.name.clone()));
     out
 }
 
@@ -181,7 +211,7 @@ fn attempt_case<P: G>(cfg: Cfg, a: Attempt) -> Box<dyn Case> {
             .commit_values
             .iter()
             .zip(a.commit_blindings.iter())
-            .map(|(v, r)| P::commit(params.pc_gens(), &Scalar::from(*v), r).unwrap())
+            .map(|(v, r)| P::commit(params.pc_gens(), &Scalar::from(*v), r).expect("commitment"))
             .collect();
         let st = P::statement(params.clone(), commitments, a.promises.clone(), None).expect("statement");
         let openings: Vec<CommitmentOpening> = a
